@@ -222,6 +222,12 @@ func (c *Ctx) rulesC02(a *coreAnchors) {
 		var clos []*ssa.Function
 		for _, hf := range c.hostedFns(pr) {
 			clos = append(clos, hf.AnonFuncs...)
+			// the filter predicate as a private bool method instead of a closure
+			if hf != pr && hf.Signature.Results().Len() == 1 {
+				if bt, ok := hf.Signature.Results().At(0).Type().Underlying().(*types.Basic); ok && bt.Kind() == types.Bool {
+					clos = append(clos, hf)
+				}
+			}
 		}
 		for _, clo := range clos {
 			for i, r := range returnsOf(clo) {
@@ -346,10 +352,18 @@ func (c *Ctx) rulesC02(a *coreAnchors) {
 						why = "the candidate list variable is never assigned the filter's result"
 					}
 				} else if f.Parent() == nil {
-					// not captured: the loop-carried SSA value
-					if flowsFrom(cand, func(x ssa.Value) bool {
+					// not captured: the loop-carried SSA value (for a hosted
+					// predicate: what parseRequire passes), rebuilt by the filter
+					// or by an explicit keep-loop
+					if flowsFrom(c.hostedArg(cand, pr), func(x ssa.Value) bool {
 						call, ok := x.(*ssa.Call)
-						return ok && calleeName(&call.Call) == "slicesFilter"
+						if !ok {
+							return false
+						}
+						if bi, isB := call.Call.Value.(*ssa.Builtin); isB && bi.Name() == "append" {
+							return true
+						}
+						return calleeName(&call.Call) == "slicesFilter"
 					}) {
 						good = true
 					}
@@ -630,7 +644,29 @@ func (c *Ctx) rulesC02grow() {
 						}
 						// the grown slice is ranged again when the append result flows back into the
 						// ranged operand through an enclosing loop (for changed { for range ret { ret = append(ret, ..) } })
-						if sameSliceVar(call.Call.Args[0], ia.X) && !sameSliceVar(ia.X, call) {
+						// ... or through the loop of the function this pass was split from:
+						// the ranged operand is a parameter whose argument, at the only call
+						// site, is fed by the results of that very call
+						viaHost := false
+						if p, ok := ia.X.(*ssa.Parameter); ok {
+							if sites, host := c.hostSites(f, false); host != nil && len(sites) == 1 {
+								if ci, ok := sites[0].Instr.(*ssa.Call); ok && len(ci.Call.Args) == len(f.Params) {
+									for pi, q := range f.Params {
+										if q != p {
+											continue
+										}
+										viaHost = flowsFrom(ci.Call.Args[pi], func(x ssa.Value) bool {
+											if x == ssa.Value(ci) {
+												return true
+											}
+											ex, ok := x.(*ssa.Extract)
+											return ok && ex.Tuple == ssa.Value(ci)
+										})
+									}
+								}
+							}
+						}
+						if sameSliceVar(call.Call.Args[0], ia.X) && !sameSliceVar(ia.X, call) && !viaHost {
 							c.fail("C02.grow", funcKey(f)+": closure loop re-visits appended elements", in2.Pos(),
 								"the loop ranges over "+render(ia.X)+" and appends to it in the body: range evaluated the slice once, the appended states are never expanded (closure one level deep)")
 						}
